@@ -174,8 +174,6 @@ def run_program(text, optargs):
             k = rows.find("Coupled residues (marked *) were detected.")
             if k >= 0:
                 rows = rows[:k]
-            # the star of a coupled group is the coupling search's (a model of its own): blanked for this comparison
-            rows = "\n".join((l[:16] + " " + l[17:]) if len(l) > 16 and l[16] == "*" else l for l in rows.split("\n"))
             summ = PO.get_summary_section(mol, "AVR", P)
             shead = "%s\n" % PO.get_summary_header()
             if summ.startswith(shead):
@@ -215,30 +213,22 @@ def table_diffs(real, model):
     return ""
 
 
-def avr_diffs(real, model, tol=1e-9):
-    """the average conformation: groups in order with label and type; numbers to `tol`; the determinants of a kind as a sorted
-    list of (label, value) - the search for coupled groups, which runs between scoring and averaging, re-orders a list when it
-    swaps and swaps back, and re-sums the pKa in the new order"""
+def avr_diffs(real, model, tol=0.0):
+    """the average conformation: groups in order with label and type; numbers bit for bit; the determinants of a kind in list
+    order with label and value bit for bit (the model runs the search for coupled groups, which re-orders a list when it swaps
+    and swaps back and re-sums the pKa in the new order, between scoring and averaging as the code does)"""
     if len(real) != len(model):
         return ["%d groups, model %d" % (len(real), len(model))]
+    names = ["label", "type", "pka_value", "num_volume", "energy_volume", "energy_local", "buried", "sidechain", "backbone", "coulomb"]
     out = []
     for r, m in zip(real, model):
-        rf, mf = r.split("|"), m.split("|")
-        lab = unhex(rf[0])
-        if rf[:2] != mf[:2]:
-            out.append("group %s/%s, model %s/%s" % (lab, unhex(rf[1]), unhex(mf[0]), unhex(mf[1])))
-            continue
-        for k, nm in ((2, "pka_value"), (3, "num_volume"), (4, "energy_volume"), (5, "energy_local"), (6, "buried")):
-            a, b = common.unbits(int(rf[k])), common.unbits(int(mf[k]))
-            if not (abs(a - b) <= tol):
-                out.append("%s %s %r, model %r" % (lab, nm, a, b))
-        for k, nm in ((7, "sidechain"), (8, "backbone"), (9, "coulomb")):
-            da = sorted((unhex(x.split(":")[0]), common.unbits(int(x.split(":")[1]))) for x in rf[k].split(",")) if rf[k] != "-" else []
-            db = sorted((unhex(x.split(":")[0]), common.unbits(int(x.split(":")[1]))) for x in mf[k].split(",")) if mf[k] != "-" else []
-            if [x[0] for x in da] != [x[0] for x in db] or any(abs(x[1] - y[1]) > tol for x, y in zip(da, db)):
-                out.append("%s %s determinants %r, model %r" % (lab, nm, da[:4], db[:4]))
-        if len(out) >= 4:
-            break
+        if r != m:
+            rf, mf = r.split("|"), m.split("|")
+            bad = [names[k] for k in range(min(len(rf), len(mf))) if rf[k] != mf[k]]
+            out.append("%s: %s differ (real %s, model %s)" % (unhex(rf[0]), ", ".join(bad), "|".join(rf[k] for k in range(len(rf)) if k < len(mf) and rf[k] != mf[k])[:90],
+                                                             "|".join(mf[k] for k in range(len(mf)) if k < len(rf) and rf[k] != mf[k])[:90]))
+            if len(out) >= 4:
+                break
     return out
 
 
@@ -318,9 +308,11 @@ def check_program(cases, tol=1e-9):
                     bad.append((tag, ["summary of the .pka file: %d lines, model %d; line %d %r, model %r" % (
                         len(rl), len(ml), k, rl[k] if k < len(rl) else None, ml[k] if k < len(ml) else None)]))
                     continue
-                d = table_diffs(txt[0], md)
-                if d:
-                    bad.append((tag, ["determinant table of the .pka file: " + d]))
+                if txt[0] != md:
+                    rl, ml = txt[0].split("\n"), md.split("\n")
+                    k = next((i for i, (a, b) in enumerate(zip(rl, ml)) if a != b), min(len(rl), len(ml)))
+                    bad.append((tag, ["determinant table of the .pka file: %d lines, model %d; line %d %r, model %r" % (
+                        len(rl), len(ml), k, rl[k] if k < len(rl) else None, ml[k] if k < len(ml) else None)]))
     return len(reqs), nconf, nerr, outside, bad
 
 
@@ -377,15 +369,15 @@ def program_tie(ctx, what, extra=()):
     ctx.count("program: PDB texts run through the real program and through Program.run", n)
     ctx.count("program: conformations compared (atoms, hydrogens, groups, records)", nconf)
     ctx.count("program: rejected inputs on which both agree (error class)", nerr)
-    ctx.count("program: average conformations compared (every reported group in order; numbers to 1e-9; determinants per kind as sets of label and value)", AVR_COMPARED[0])
-    ctx.count("program: .pka determinant tables and summaries compared (summary character by character; table block by block, determinant columns as multisets, stars blanked)", TXT_COMPARED[0])
+    ctx.count("program: average conformations compared (every reported group: numbers bit for bit, determinants in list order)", AVR_COMPARED[0])
+    ctx.count("program: .pka determinant tables and summaries compared (determinant table with its stars and summary, character by character)", TXT_COMPARED[0])
     ctx.count("program: texts outside the model (other parameter files, non-latin-1 text)", outside)
     ctx.count("program: texts with options -k / --protonate-all / -c / --titrate_only",
               sum(1 for c in cases if any(a in ("-k", "--protonate-all", "-c", "--titrate_only") or a.startswith("--titrate_only") for a in c[2])))
     ctx.oblige("correspondence: the program as one Lean function (Program.run: parser, read_pdb, top-up, bonding, SYBYL typing, protonation, "
-               "group extraction and set-up, sort_atoms, covalent coupling, scoring, average_of_conformations, the determinant and summary sections of the .pka file) = the real program from the PDB text on %d texts of %s "
+               "group extraction and set-up, sort_atoms, covalent coupling, scoring, the search for non-covalently coupled groups, average_of_conformations, the determinant and summary sections of the .pka file) = the real program from the PDB text on %d texts of %s "
                "(%d conformations: every atom incl. built hydrogens bit for bit, every group, every determinant and pKa to 1e-9; the average conformation "
-               "group by group; the summary of the .pka file character by character and its determinant table block by block; %d rejected "
+               "bit for bit; the determinant table (with the stars of coupled groups) and the summary of the .pka file character by character; %d rejected "
                "inputs with the same error class)" % (n, what, nconf, nerr),
                not bad, "; ".join("%s: %s" % (t[:60], "; ".join(d[:2])) for t, d in bad[:2])[:700])
     for t, d in bad[:1]:
